@@ -3,10 +3,13 @@
 package genprops
 
 import (
+	"fmt"
 	"os"
+	"strings"
 	"path/filepath"
 	"testing"
 
+	"verif/core/hx"
 	"verif/core/schema"
 	"verif/core/stats"
 )
@@ -49,5 +52,143 @@ func knownWitnesses() []kfWitness {
 		{"KF-C12-field-method-clash", witnessFieldMethodClash(), "field and method with the same name"},
 		{"KF-C12-receiver-package-clash", witnessReceiverPackageClash(), "x.Item"},
 		{"KF-C12-derived-type-name-clash", witnessDerivedNameClash(), "Node_PartialUpdate redeclared"},
+	}
+}
+
+// ---------------------------------------------------------------------------------------------
+// dependency manifests: a schema set split over two libraries and an application, each generated from its own
+// manifest that lists the other libraries' types as dependency types (in both orders of the dependency manifests)
+
+type depCase struct {
+	AOnB   bool `json:"liba_depends_on_libb"` // else libb depends on liba
+	AFirst bool `json:"liba_listed_first"`
+	NA     int  `json:"types_in_liba"`
+	NB     int  `json:"types_in_libb"`
+}
+
+func depSchema(c depCase) *schema.Schema {
+	s := &schema.Schema{}
+	lower, upper, nl, nu := "liba", "libb", c.NA, c.NB // upper depends on lower
+	if c.AOnB {
+		lower, upper, nl, nu = "libb", "liba", c.NB, c.NA
+	}
+	for i := 0; i < nl; i++ {
+		s.Add(&schema.Named{Ident: schema.Ident{Name: fmt.Sprintf("Low%d", i), Namespace: lower}, Kind: "record", Fields: []schema.Field{{Name: "a", Type: schema.P("string")}}})
+	}
+	s.Add(&schema.Named{Ident: schema.Ident{Name: "Tag", Namespace: lower}, Kind: "enum", Symbols: []string{"X", "Y"}})
+	for i := 0; i < nu; i++ {
+		s.Add(&schema.Named{Ident: schema.Ident{Name: fmt.Sprintf("Up%d", i), Namespace: upper}, Kind: "record", Fields: []schema.Field{
+			{Name: "low", Type: schema.R(lower, fmt.Sprintf("Low%d", i%nl))}, {Name: "tags", Type: schema.A(schema.R(lower, "Tag")), Optional: true}}})
+	}
+	s.Add(&schema.Named{Ident: schema.Ident{Name: "App", Namespace: "app"}, Kind: "record", Includes: []schema.Ident{{Name: "Up0", Namespace: upper}}, Fields: []schema.Field{
+		{Name: "lows", Type: schema.M(schema.R(lower, "Low0"))}, {Name: "tag", Type: schema.R(lower, "Tag"), Default: strp(`"Y"`)}}})
+	return s
+}
+
+func strp(s string) *string { return &s }
+
+func checkDependencies(rec *stats.Recorder, c depCase) string {
+	mod := scratch()
+	caseNo++
+	base := fmt.Sprintf("d%d", caseNo)
+	work := filepath.Join(mod, base)
+	must(os.MkdirAll(work, 0o755))
+	defer func() { chmodAll(work); os.RemoveAll(work) }()
+	s := depSchema(c)
+	rec.Case("dependency_manifests", fmt.Sprintf("liba_first=%v", c.AFirst), fmt.Sprintf("liba_on_libb=%v", c.AOnB))
+	rec.NonTrivial("dependencies", hx.J(c), func() any { return c })
+	lower, upper := "liba", "libb"
+	if c.AOnB {
+		lower, upper = "libb", "liba"
+	}
+	in := func(ns string) func(*schema.Named) bool {
+		return func(n *schema.Named) bool { return n.Namespace == ns }
+	}
+	root := func(lib string) string { return "verifgen/" + base + "/" + lib }
+	files := map[string]string{}
+	write := func(lib string, b []byte) {
+		files[lib] = filepath.Join(work, lib+".manifest.json")
+		must(os.WriteFile(files[lib], b, 0o644))
+	}
+	none := func(*schema.Named) bool { return false }
+	write(lower, s.ManifestV2Split(root(lower), in(lower), none))
+	write(upper, s.ManifestV2Split(root(upper), in(upper), in(lower)))
+	write("app", s.ManifestV2Split(root("app"), in("app"), func(n *schema.Named) bool { return n.Namespace != "app" }))
+	// each library is generated from its own manifest, preceded by the manifests it depends on
+	gen := func(lib string, deps ...string) string {
+		args := []string{}
+		for _, d := range deps {
+			args = append(args, files[d])
+		}
+		args = append(args, files[lib], filepath.Join(work, lib))
+		if o, err := run(mod, gendrv, args...); err != nil {
+			return fmt.Sprintf("generating %s (dependency manifests in the order %v) failed: %s", lib, deps, lastLines(o, 8))
+		}
+		return ""
+	}
+	order := []string{"liba", "libb"}
+	if !c.AFirst {
+		order = []string{"libb", "liba"}
+	}
+	for _, step := range [][]string{{lower}, {upper, lower}, append([]string{"app"}, order...)} {
+		if m := gen(step[0], step[1:]...); m != "" {
+			return m
+		}
+	}
+	// the application again with the dependency manifests in the other order: same output
+	t0 := readTree(filepath.Join(work, "app"))
+	must(os.Rename(filepath.Join(work, "app"), filepath.Join(work, "app.first")))
+	if m := gen("app", order[1], order[0]); m != "" {
+		return m
+	}
+	if d := diffTrees(t0, readTree(filepath.Join(work, "app"))); d != "" {
+		return "the generated code depends on the order in which the dependency manifests are given: " + d
+	}
+	chmodAll(filepath.Join(work, "app.first"))
+	must(os.RemoveAll(filepath.Join(work, "app.first")))
+	// compile: library packages with go build, the three generated all-imports packages the way upstream compiles them
+	pkgs, err := run(mod, "go", "list", "./"+base+"/...")
+	if err != nil {
+		return "go list failed on the generated trees:\n" + compileErrors(pkgs)
+	}
+	var libs, roots []string
+	for _, p := range strings.Fields(pkgs) {
+		if p == root("liba") || p == root("libb") || p == root("app") {
+			roots = append(roots, p)
+		} else {
+			libs = append(libs, p)
+		}
+	}
+	if o, err := run(mod, "go", append([]string{"build"}, libs...)...); err != nil {
+		return "bindings generated from manifests with dependencies do not compile:\n" + compileErrors(o)
+	}
+	if o, err := run(mod, "go", append([]string{"test", "-run", "^$", "-vet=off"}, roots...)...); err != nil {
+		return "the all-imports packages generated from manifests with dependencies do not compile:\n" + compileErrors(o)
+	}
+	return ""
+}
+
+func TestC12Dependencies(t *testing.T) {
+	rec := stats.For("C12")
+	if c, ok := hx.Replay[depCase]("C12", "dependencies"); ok {
+		if msg := checkDependencies(rec, c); msg != "" {
+			rec.Violation("dependencies", msg, c)
+			t.Fatal(msg)
+		}
+		return
+	} else if hx.Replaying() {
+		t.Skip()
+	}
+	if i, _ := hx.ShardIndex(); i != 0 {
+		t.Skip()
+	}
+	for _, aOnB := range []bool{false, true} {
+		for _, aFirst := range []bool{false, true} {
+			c := depCase{AOnB: aOnB, AFirst: aFirst, NA: 2, NB: 3}
+			if msg := checkDependencies(rec, c); msg != "" {
+				rec.Violation("dependencies", msg, c)
+				t.Fatal(msg)
+			}
+		}
 	}
 }
